@@ -37,6 +37,8 @@ pub(crate) struct RepSocket {
   /// Serialises recv() / recv_multipart() calls: state check, wait for a request and state
   /// update of one call happen as a unit with respect to other receive calls.
   recv_serializer: tokio::sync::Mutex<()>,
+  /// Frames of the current request that recv() has not handed out yet (frame-by-frame reading).
+  frame_recv_buffer: ParkingLotMutex<std::collections::VecDeque<Msg>>,
   pipe_read_id_to_endpoint_uri: RwLock<HashMap<usize, String>>,
 }
 
@@ -49,6 +51,7 @@ impl RepSocket {
       pending_pipe_senders: ParkingLotMutex::new(HashMap::new()),
       state: ParkingLotMutex::new(RepState::ReadyToReceive),
       recv_serializer: tokio::sync::Mutex::new(()),
+      frame_recv_buffer: ParkingLotMutex::new(std::collections::VecDeque::new()),
       pipe_read_id_to_endpoint_uri: RwLock::new(HashMap::new()),
     }
   }
@@ -151,6 +154,10 @@ impl ISocket for RepSocket {
     // the others wait here and then find the socket in ReceivedRequest (so the stored
     // requester is never overwritten by a second request).
     let _recv_turn = self.recv_serializer.lock().await;
+    // The request is being read frame by frame: the next frame of it.
+    if let Some(frame) = self.frame_recv_buffer.lock().pop_front() {
+      return Ok(frame);
+    }
     {
       let guard = self.state.lock();
       if !matches!(*guard, RepState::ReadyToReceive) {
@@ -166,7 +173,9 @@ impl ISocket for RepSocket {
     if payload_frames.is_empty() {
       Ok(Msg::new())
     } else {
-      Ok(payload_frames.remove(0))
+      let first = payload_frames.remove(0);
+      self.frame_recv_buffer.lock().extend(payload_frames.into_iter());
+      Ok(first)
     }
   }
 
@@ -178,6 +187,8 @@ impl ISocket for RepSocket {
     if user_payload_frames.is_empty() {
       user_payload_frames.push(Msg::new());
     }
+    // replying ends the request: frames of it that were not read are dropped
+    self.frame_recv_buffer.lock().clear();
 
     let peer_to_reply_to = {
       let mut guard = self.state.lock();
@@ -242,6 +253,17 @@ impl ISocket for RepSocket {
     // the others wait here and then find the socket in ReceivedRequest (so the stored
     // requester is never overwritten by a second request).
     let _recv_turn = self.recv_serializer.lock().await;
+    // A request partly read with recv(): the rest of it.
+    {
+      let mut rest = self.frame_recv_buffer.lock();
+      if !rest.is_empty() {
+        let mut out = FrameBatch::new();
+        for f in rest.drain(..) {
+          out.push(f);
+        }
+        return Ok(out);
+      }
+    }
     {
       let guard = self.state.lock();
       if !matches!(*guard, RepState::ReadyToReceive) {
